@@ -37,7 +37,7 @@ enum Op {
 const GEN_TS: [u64; 3] = [10, 20, 5];
 
 fn keys() -> Vec<Vec<u8>> {
-    // three keys in three different buckets, and a fourth sharing a bucket with the first
+    // keys 0 and 1 share a bucket; keys 2 and 3 live in two other buckets
     let mut picked: Vec<Vec<u8>> = Vec::new();
     let mut buckets: Vec<usize> = Vec::new();
     let mut i = 0u32;
@@ -54,7 +54,8 @@ fn keys() -> Vec<Vec<u8>> {
         let k = format!("c{i}").into_bytes();
         let b = feoxdb::utils::hash::murmur3_32(&k, 0) as usize % BUCKETS;
         if b == buckets[0] {
-            picked.push(k);
+            // index 1: the quick alphabet (first three keys) contains the colliding pair
+            picked.insert(1, k);
             break;
         }
         i += 1;
@@ -490,11 +491,29 @@ fn run_hist(keys: &[Vec<u8>], hist: &[Op]) -> Result<(u64, MCache), String> {
     Ok((model.state_key(), model))
 }
 
+/// The eviction policy needs long histories (fill, sweep, touch, refill, sweep again)
+/// over few operations: colliding and non-colliding keys, lookups, explicit sweeps.
+fn eviction_alphabet(thorough: bool) -> Vec<Op> {
+    let mut v = Vec::new();
+    for k in 0..if thorough { 4 } else { 3 } {
+        v.push(Op::Insert(k, 0));
+        v.push(Op::Get(k));
+    }
+    v.push(Op::Insert(0, 1));
+    v.push(Op::Evict);
+    v
+}
+
 pub fn run_fsm(tier: &str, budget_s: f64, report: &mut Report) {
     let thorough = tier == "thorough";
+    run_fsm_with("general", alphabet(thorough), if thorough { 6 } else { 4 }, budget_s * 0.6, report);
+    if report.violations.is_empty() {
+        run_fsm_with("eviction", eviction_alphabet(thorough), if thorough { 14 } else { 10 }, budget_s * 0.4, report);
+    }
+}
+
+fn run_fsm_with(label: &str, ops: Vec<Op>, depth: usize, budget_s: f64, report: &mut Report) {
     let keys = keys();
-    let ops = alphabet(thorough);
-    let depth = if thorough { 6 } else { 4 };
     let dl = Deadline::new(budget_s);
     let threads = crate::util::worker_threads();
     let seen: Mutex<HashSet<u64>> = Mutex::new(HashSet::new());
@@ -562,10 +581,10 @@ pub fn run_fsm(tier: &str, budget_s: f64, report: &mut Report) {
     report.add("transitions", t);
     report.add("traces_validated_against_impl", t);
     report.set(
-        "cache_fsm",
+        &format!("cache_fsm_{label}"),
         json!({"alphabet": ops.len(), "depth_bound": depth, "depth_completed": completed, "complete": complete, "states": states, "transitions": t}),
     );
     if completed < 3 {
-        report.machinery("cache FSM exploration hit its time cap before depth 3");
+        report.machinery(format!("cache FSM ({label}) exploration hit its time cap before depth 3"));
     }
 }
